@@ -14,6 +14,14 @@ Explained(ev) ==
   /\ \A h \in PolicyHops : h \in DOMAIN ev.hops /\ ev.hops[h] = ev.p0
   /\ {"est_from_json", "alt_from_json", "est_pst", "alt_pst", "alt_pst_json", "alt_json", "alt_text"} \subseteq DOMAIN ev.alts
   /\ \A h \in DOMAIN ev.alts : ev.alts[h] = ev.p0
+  \* PolicySet::to_cedar: a set with a template link has no Cedar text (however the set was built); otherwise the text
+  \* parses back to exactly the original policy (ids are not part of Cedar text)
+  /\ "to_cedar" \in DOMAIN ev.hops /\ {"text", "json", "pst", "proto"} \subseteq DOMAIN ev.hops["to_cedar"]
+  /\ LET noId == [k \in DOMAIN ev.p0 \ {"id"} |-> ev.p0[k]]
+     IN \A h \in {"text", "json", "pst", "proto"} :
+          LET r == ev.hops["to_cedar"][h]
+          IN IF ev.template THEN r = <<"none">> ELSE (r[1] = "ok" /\ r[2] = <<noId>>)
+  /\ ev.template => (ev.hops["to_cedar"]["text_link"] = FALSE /\ ev.hops["to_cedar"]["json_link"] = FALSE)
   /\ IF ev.template
      THEN /\ ev.hops["proto"] = ev.p0
           /\ ev.hops["set_p0"].view.template = ev.p0
